@@ -230,6 +230,15 @@ def check_C10(ctx):
                              "the fail-fast variant of the join (used by action-cache validation) is covered under C06"] + E1_ASSUME)
 
 
+def check_C11(ctx):
+    g = ctx.bin(GRID)
+    jobs = [Job(g, "TestC11", name="C11:" + mode, timeout=1200, env={"VERIF_PARAM_MODE": mode, "GOMAXPROCS": "4"}) for mode in ("zstd", "uncompressed")]
+    return dict(level="exploration", jobs=jobs,
+                rule="message grammar: a fully populated valid ActionResult and four further valid shapes, plus one invalid field of each kind (empty/absolute path, empty target, nil digest, empty element, negative size, short/upper-case/non-hex/empty hash) at every position where it can occur (output files, output directories, the three symlink lists, stdout/stderr digests) x 5 encodings (gRPC, HTTP protobuf, HTTP JSON, each also zstd-wrapped); validation disabled; all 8 inline-request combinations x stdout size {small, exactly the 3 MiB budget, over it}; alternating overwrites through all encodings with invalid uploads in between; non-trivial = distinct (message, encoding) cells accepted or rejected with the post-conditions checked",
+                assumptions=["nil elements of repeated fields cannot be put on the wire by the protobuf runtime; empty elements stand in for them",
+                             "an empty output-directory path is valid (REAPI: the working directory itself)"])
+
+
 def check_C12(ctx):
     th = ctx.thorough()
     b = ctx.bin(DISK)
@@ -337,7 +346,7 @@ def check_C13(ctx):
                              "a method unknown to the harness's read-only list is treated as mutating"])
 
 
-CHECKS = {"C01": check_C01, "C02": check_C02, "C08": check_C08, "C09": check_C09, "C06": check_C06, "C10": check_C10, "C12": check_C12, "C13": check_C13, "C16": check_C16, "C17": check_C17, "C18": check_C18, "C03": check_C03, "C04": check_C04, "C05": check_C05, "C07": check_C07}
+CHECKS = {"C01": check_C01, "C02": check_C02, "C08": check_C08, "C09": check_C09, "C06": check_C06, "C10": check_C10, "C11": check_C11, "C12": check_C12, "C13": check_C13, "C16": check_C16, "C17": check_C17, "C18": check_C18, "C03": check_C03, "C04": check_C04, "C05": check_C05, "C07": check_C07}
 
 # per-property manifest metadata
 META = {
@@ -395,6 +404,12 @@ META = {
         note="Lists beyond 45 digests only add further full batches of 20, which the code handles by the same loop iteration.",
         technique="exhaustive input enumeration through the real handler + schedule DFS + explicit-state BFS",
         design_ref="DESIGN.md 3 (C10)"),
+    "C11": dict(
+        category="exploration", engine="E4 grid",
+        text="Bounded-exhaustive message grammar through the real handlers: valid ActionResults with every field class populated and every single-field invalid variant at every position, through gRPC UpdateActionResult and HTTP PUT as protobuf / JSON, plain and zstd; accepted <=> valid; a rejected upload leaves no entry (all three read views miss, no file); an accepted one is served equal to the upload modulo the worker name, identically through gRPC, HTTP protobuf and HTTP JSON; inlined stdout/stderr/file contents are stored in the CAS under their true digest and re-inlined exactly as requested and as the 3 MiB budget allows (all 8 request combinations at three sizes); raw key space with validation off stores bytes verbatim; the latest accepted upload wins across encodings with invalid uploads interleaved.",
+        note="Small-scope hypothesis over message shapes: one invalid field at a time.",
+        technique="exhaustive enumeration of a bounded message grammar x encodings through the real entry points",
+        design_ref="DESIGN.md 3 (C11)"),
     "C12": dict(
         category="fault_enumeration", engine="E3 faultx + E2 seqx",
         text="Deviation-bounded enumeration of backend behaviour against the real disk cache: at the cache.Proxy seam every kind x storage mode x size known/unknown x plain/zstd read x {error, not found, nil reader, five size-metadata lies, one-byte reads, cancelled context, stream error at every byte offset, clean EOF at every byte offset} (pairs in the thorough tier), followed by a fault-free read, a local-only read with the backend emptied (poisoning) and the quiescence invariants (reserved 0, directory == index, every backend stream closed); through the real httpproxy (in front of a plain HTTP object store with a fault layer cutting responses at every byte, 404/500, no Content-Length; two identical rounds must not grow goroutines/fds) and the real grpcproxy chained to a second real cache (write-through reaches the backend once and a fresh peer recovers the identical blob; absent entries miss without panic); plus BFS over operation sequences with a backend (write-through exactly once and decodable by the independent format reader).",
